@@ -522,28 +522,22 @@ pub fn run<D: Dec>(rep: &mut Report) {
                     }
                     let mut a = p.clone();
                     a.push(b);
+                    // every stream is fed from its first byte (no forking): state kept outside the decoder object is not forked
                     for k in [2usize, 3] {
-                        let mut w: Walker<D> = Walker::new();
-                        let mut ok = true;
-                        'outer: for _ in 0..k {
-                            for x in a.iter() {
-                                if !w.step(*x, &mut ft, &fresh, &uni3, true, &mut out) {
-                                    ok = false;
-                                    break 'outer;
-                                }
-                            }
-                        }
-                        if !ok {
-                            continue;
-                        }
                         for p2 in prefixes.iter() {
-                            let mut w1 = w.fork();
-                            if !p2.iter().all(|x| w1.step(*x, &mut ft, &fresh, &uni3, true, &mut out)) {
-                                continue;
-                            }
                             for b2 in 0..=255u8 {
-                                let mut w2 = w1.fork();
-                                w2.step(b2, &mut ft, &fresh, &uni3, true, &mut out);
+                                let mut w: Walker<D> = Walker::new();
+                                let mut stream: Vec<u8> = Vec::new();
+                                for _ in 0..k {
+                                    stream.extend_from_slice(&a);
+                                }
+                                stream.extend_from_slice(p2);
+                                stream.push(b2);
+                                for x in stream.iter() {
+                                    if !w.step(*x, &mut ft, &fresh, &uni3, true, &mut out) {
+                                        break;
+                                    }
+                                }
                                 out.streams += 1;
                             }
                         }
